@@ -241,6 +241,23 @@ CLAIMED['C11'] = dict(
          'Validity of the written dataset is C02\'s theorem plus the independent validator.',
     technique='Coq proof (selected-rows enumeration theorem + composition with C08 write_ind_val theorems) + vm_compute correspondence against the written datasets')
 
+CLAIMED['C12'] = dict(
+    text='Pipeline model of USIDataset.reduce (Usid/Reduce.v) composed of the existing executable models of reshape_to_n_dims (C01) and '
+         'reshape_from_n_dims (C10) with a new N-D reduction (value at a kept index = f of the fibre over it), the name -> axis lookup, '
+         'write_reduced_anc_dsets (matrix level, as the code; and digit level) and the final shape gate. Theorems: the reduced value is f of exactly '
+         'the fibre (get lemma; every in-bounds element lies in the fibre over its own remaining coordinates; the fibre contains nothing else); on a '
+         'grid dataset in any storage order the axis of a name is its number in file order and the reduced array is the one that C01\'s coordinate '
+         'theorem describes (composition with grid_to_nd); the columns kept on a reduced side are prod(kept sizes) many and the j-th one carries '
+         'the digits of j along the kept dimensions and 0 along the reduced ones (selected-rows enumeration theorem of C11), i.e. every remaining '
+         'coordinate combination exactly once; with fewer than two axes left the call raises. Correspondence on sum / max / min (exact integers): '
+         'returned array, written matrix, new ancillaries, reuse of untouched sides, raise / no raise, and agreement of the matrix-level and '
+         'digit-level descriptions of the kept columns. Oracle (all five functions): numpy on the N-D form, fibre-wise check of every file element.',
+    design='5/C12',
+    note='Partial: (1) mean and std are floating point and are judged by the numpy oracle only; (2) that reshape_from_n_dims puts each fibre value at '
+         'the row / column carrying its coordinates is decided by the correspondence (executable C10 model) and the oracle, not by a theorem '
+         '(the C10 inverse theorem is not proved). Trusted: Coq kernel, harness, dask reductions.',
+    technique='Coq proof (fibre lemma, composition with C01 grid theorem, selected-rows enumeration for the reduced ancillaries) + vm_compute correspondence of the composed pipeline')
+
 NOT_YET = {}
 
 TITLES = {}
